@@ -15,7 +15,7 @@
 From Coq Require Import List.
 From SM Require Import Lifecycle.
 From SM.specs Require Import C19_spec SourceFacts_spec.
-From SM.proofs Require Import LifecycleProofs SourceFacts.
+From SM.proofs Require Import LifecycleProofs SourceFactsLife SourceFactsStepOverwrites SourceFactsReady.
 
 Theorem C19_compile_only_when_ready : forall n, compile_only_when_ready n.
 Proof. exact compile_only_when_ready_proof. Qed.
@@ -39,3 +39,6 @@ Print Assumptions C19_init_resets_in_source.
 Theorem C19_step_overwrites_in_source : step_overwrites_in_source.
 Proof. exact step_overwrites_in_source_proof. Qed.
 Print Assumptions C19_step_overwrites_in_source.
+Theorem C19_readiness_scan_as_modelled : readiness_scan_as_modelled.
+Proof. exact readiness_scan_as_modelled_proof. Qed.
+Print Assumptions C19_readiness_scan_as_modelled.
